@@ -11,6 +11,7 @@ import (
 	corev1 "k8s.io/api/core/v1"
 	metav1 "k8s.io/apimachinery/pkg/apis/meta/v1"
 	"pgregory.net/rapid"
+	"sigs.k8s.io/controller-runtime/pkg/client"
 
 	edsv1 "github.com/DataDog/extendeddaemonset/api/v1alpha1"
 	"verifharness/evid"
@@ -114,24 +115,28 @@ func (q *workQueue) events(pre, post *sim.Snapshot) (changed bool) {
 		return m
 	}
 	a, b := index(pre), index(post)
-	handle := func(kind string, o metav1.Object) {
-		switch kind {
-		case "pod":
-			if v, ok := o.GetLabels()[oracle.LabelEDSName]; ok {
-				q.add(sim.ActorEDS, o.GetNamespace(), v)
+	wr, werr := getWiring()
+	if werr != nil {
+		panic("harness: wiring: " + werr.Error())
+	}
+	kindName := map[string]string{"pod": "Pod", "rs": "ExtendedDaemonSetReplicaSet", "eds": "ExtendedDaemonSet", "pt": "PodTemplate"}
+	actorOf := map[string]string{"eds": sim.ActorEDS, "ers": sim.ActorERS, "podtemplate": sim.ActorPodTemplate, "setting": sim.ActorSetting}
+	deliver := func(kind string, oldObj, newObj metav1.Object) {
+		var o, n client.Object
+		if oldObj != nil {
+			o = oldObj.(client.Object)
+		}
+		if newObj != nil {
+			n = newObj.(client.Object)
+		}
+		reqs, err := wr.requestsFor(kindName[kind], o, n)
+		if err != nil {
+			panic("harness: wiring: " + err.Error())
+		}
+		for _, r := range reqs {
+			if actor := actorOf[r.Controller]; actor != "" {
+				q.add(actor, r.NS, r.Name)
 			}
-			q.add(sim.ActorERS, o.GetNamespace(), controllerOwner(o, "ExtendedDaemonSetReplicaSet"))
-		case "rs":
-			q.add(sim.ActorERS, o.GetNamespace(), o.GetName())
-			q.add(sim.ActorEDS, o.GetNamespace(), controllerOwner(o, "ExtendedDaemonSet"))
-		case "eds":
-			q.add(sim.ActorEDS, o.GetNamespace(), o.GetName())
-			q.add(sim.ActorPodTemplate, o.GetNamespace(), o.GetName())
-			if e, ok := o.(*edsv1.ExtendedDaemonSet); ok {
-				q.add(sim.ActorERS, e.Namespace, e.Status.ActiveReplicaSet)
-			}
-		case "pt":
-			q.add(sim.ActorPodTemplate, o.GetNamespace(), controllerOwner(o, "ExtendedDaemonSet"))
 		}
 	}
 	for _, kind := range []string{"pod", "rs", "eds", "pt"} {
@@ -154,11 +159,13 @@ func (q *workQueue) events(pre, post *sim.Snapshot) (changed bool) {
 				continue
 			}
 			changed = true
-			if inA {
-				handle(kind, x.obj)
-			}
-			if inB {
-				handle(kind, y.obj)
+			switch {
+			case inA && inB:
+				deliver(kind, x.obj, y.obj)
+			case inA:
+				deliver(kind, x.obj, nil)
+			default:
+				deliver(kind, nil, y.obj)
 			}
 		}
 	}
@@ -492,7 +499,14 @@ func TestC02Queue(t *testing.T) {
 			rec.Done()
 		}
 	})
-	rapid.Check(t, func(rt *rapid.T) {
+	rapid.Check(t, func(rt *rapid.T) { c02Queue(rec, rt, "C02") })
+}
+
+// c02Queue plays one event-driven history. For C11 one write of a controller after the first roll-out is refused
+// (generic error or the typed error of its verb) or stored and answered with an error; the fixpoint must be reached
+// all the same (recovery by the controllers' own retries and requeues).
+func c02Queue(rec *evid.Rec, rt *rapid.T, prop string) {
+	{
 		nodes := rapid.IntRange(2, 4).Draw(rt, "nodes")
 		freq := rapid.SampledFrom([]time.Duration{time.Second, 2 * time.Second, 10 * time.Second}).Draw(rt, "reconcileFrequency")
 		maxU := rapid.SampledFrom([]string{"1", "100%"}).Draw(rt, "maxUnavailable")
@@ -510,8 +524,14 @@ func TestC02Queue(t *testing.T) {
 			})
 		}
 		desc := fmt.Sprintf("nodes=%d reconcileFrequency=%s maxUnavailable=%s canary=%s actions=%v", nodes, freq, maxU, canary, acts)
+		faultAt, faultKind := -1, sim.FaultNone
+		if prop == "C11" {
+			faultAt = rapid.IntRange(0, 40).Draw(rt, "faultedWrite")
+			faultKind = rapid.SampledFrom([]sim.FaultKind{sim.FaultReject, sim.FaultRejectTyped, sim.FaultRejectTyped, sim.FaultLostAnswer, sim.FaultLostAnswerTyped}).Draw(rt, "faultKind")
+			desc += fmt.Sprintf(" fault=%s on controller write #%d after the first roll-out", faultKind, faultAt)
+		}
 		var viol []mon.V
-		w := &World{rec: rec, cfg: WorldCfg{Monitors: mon.Of("create-eligible", "create-once", "promotion-rule", "status-function", "no-panic"), Property: "C02"}, H: mon.NewHistory(), RSSeen: map[string]bool{}, RolesSynced: map[string]bool{}, Facts: map[string]int{}, lastSyncAt: map[string]time.Time{}, Det: true}
+		w := &World{rec: rec, cfg: WorldCfg{Monitors: mon.Of("create-eligible", "create-once", "promotion-rule", "status-function", "no-panic"), Property: prop}, H: mon.NewHistory(), RSSeen: map[string]bool{}, RolesSynced: map[string]bool{}, Facts: map[string]int{}, lastSyncAt: map[string]time.Time{}, Det: true}
 		w.OnViolation = func(vs []mon.V) { viol = append(viol, vs...) }
 		w.C = sim.New(sim.Options{})
 		for i := 0; i < nodes; i++ {
@@ -568,6 +588,21 @@ func TestC02Queue(t *testing.T) {
 		if !converge("first roll-out") && !stop() {
 			viol = append(viol, mon.V{Property: "C02", Monitor: "convergence", Sig: "C02/convergence/event-driven/first-roll-out", Detail: fmt.Sprintf("%s after the ExtendedDaemonSet was created: %s; %s (%s)", bound, w.fixpointOK(), w.describe(), desc)})
 		}
+		writesSeen, faultHit := 0, ""
+		if faultAt >= 0 {
+			w.C.Faults = func(call *sim.Call) sim.FaultKind {
+				if !call.Write || (call.Actor != sim.ActorEDS && call.Actor != sim.ActorERS) {
+					return sim.FaultNone
+				}
+				writesSeen++
+				if writesSeen == faultAt+1 {
+					faultHit = call.String()
+					w.C.Tracef("FAULT %s on %s", faultKind, call.String())
+					return faultKind
+				}
+				return sim.FaultNone
+			}
+		}
 		edits, churn := 0, 0
 		for ai, a := range acts {
 			if stop() {
@@ -622,15 +657,36 @@ func TestC02Queue(t *testing.T) {
 		if !stop() {
 			q.LastChange = w.C.Now()
 			if !converge("end") && !stop() {
-				viol = append(viol, mon.V{Property: "C02", Monitor: "convergence", Sig: "C02/convergence/event-driven/no-fixpoint", Detail: fmt.Sprintf("%s of event-driven running after the last action: %s; %s (%s)", bound, w.fixpointOK(), w.describe(), desc)})
+				sig := "C02/convergence/event-driven/no-fixpoint"
+				if prop == "C11" {
+					sig = "C11/recovery/event-driven/no-fixpoint"
+				}
+				viol = append(viol, mon.V{Property: prop, Monitor: "convergence", Sig: sig, Detail: fmt.Sprintf("%s of event-driven running after the last action: %s; fault hit: %q; %s (%s)", bound, w.fixpointOK(), faultHit, w.describe(), desc)})
 			}
 		}
 		nt := edits > 0 && churn > 0
-		rec.Case(nt, evid.FP(desc), "canary="+canary, fmt.Sprintf("frequency=%s", freq))
+		if prop == "C11" {
+			nt = faultHit != ""
+		}
+		rec.Case(nt, evid.FP(desc), "canary="+canary, fmt.Sprintf("frequency=%s", freq), fmt.Sprintf("fault-hit=%v", faultHit != ""))
 		rec.Steps(q.Steps)
 		if nt && rec.WantSample() {
 			rec.Sample(desc)
 		}
 		settle(rt, rec, viol, map[string]interface{}{"config": desc, "trace": tail(w.C.Trace, 200)}, len(w.C.Trace), "config: "+desc+"\n--- trace (tail) ---\n"+strings.Join(tail(w.C.Trace, 80), "\n"))
+	}
+}
+
+// TestC11Queue: the recovery clause of C11 under event-driven scheduling. The histories of TestC02Queue with one
+// failing API write of a controller (refused, or stored and answered with an error): nobody re-runs a reconcile unless
+// the controller returned an error, asked for a requeue, or an event arrived - a failure that is swallowed (no error,
+// no requeue, nothing written) leaves the system short of the failure-free result.
+func TestC11Queue(t *testing.T) {
+	rec := evid.New("TestC11Queue", "C11", "the event-driven histories of TestC02Queue (2-4 nodes, reconcileFrequency 1s/2s/10s, no / auto / manual canary, 2-6 actions: template changes, node churn, pod losses) with one write call of the EDS or replica-set controller after the first roll-out refused (generic error / the typed error of its verb: Conflict, AlreadyExists, TooManyRequests) or stored-but-answered-with-an-error (generic / ServerTimeout); reconciles run only on watch events, requeue requests and error back-off; oracle: the C02 fixpoint (= the failure-free result) within 90s + 40 x reconcileFrequency of virtual time after the last action, safety monitors create-eligible, create-once, promotion-rule, status-function after every reconcile; non-trivial = the fault hit a call; distinct by configuration")
+	t.Cleanup(func() {
+		if !t.Failed() {
+			rec.Done()
+		}
 	})
+	rapid.Check(t, func(rt *rapid.T) { c02Queue(rec, rt, "C11") })
 }
